@@ -446,3 +446,32 @@ class Siblings(Sub):
                 return fail('%s gives %r when evaluated after %s in the same process; as the only evaluation of a fresh '
                             'process it gives %r' % (f, got[i], ', '.join(forms[:i]) or 'nothing', refs[f]), refs[f], got[i])
         return None
+
+
+class local_timezone(object):
+    """`with local_timezone('EST5EDT,M3.2.0,M11.1.0'):` - the process runs in that zone (POSIX TZ string, no zone database
+    needed); restored afterwards.  The host's time zone is an environment answer like the clock: no result may depend on it."""
+
+    def __init__(self, tz):
+        self.tz = tz
+
+    def __enter__(self):
+        import os
+        import time
+        self.old = os.environ.get('TZ')
+        os.environ['TZ'] = self.tz
+        time.tzset()
+        return self
+
+    def __exit__(self, *a):
+        import os
+        import time
+        if self.old is None:
+            os.environ.pop('TZ', None)
+        else:
+            os.environ['TZ'] = self.old
+        time.tzset()
+        return False
+
+
+ZONES = ['UTC0', 'EST5EDT,M3.2.0,M11.1.0', 'GMT0BST,M3.5.0/1,M10.5.0/2', 'IST-5:30', 'NZST-12NZDT,M9.5.0,M4.1.0/3', 'HST10']
